@@ -102,9 +102,20 @@ def main(tier=None):
     thorough = ck.tier == 'thorough'
     H1 = 'nc_hash_size_dim=1;nc_hash_size_var=1;nc_hash_size_gattr=1;nc_hash_size_vattr=1'
     H2 = 'nc_hash_size_dim=2;nc_hash_size_var=2;nc_hash_size_gattr=2;nc_hash_size_vattr=2'
-    inits = [make_init('hash1', H1), make_init('default', None, 5), make_init_populated('hash1-populated', H1)] + ([make_init('hash2', H2, 2), make_init_populated('hash2-populated', H2, 5)] if thorough else [])
-    bfs = HistoryBFS(ck, b['vx'], inits, alphabet_for(thorough), maxdepth=4 if thorough else 3, reps=1, emit=emit, extra_judge=extra_judge)
-    bfs.run(deadline=time.time() + (1700 if thorough else 200))
+    if thorough:
+        # depth 4 from the empty file (three hash-table sizes), depth 3 from the populated sessions: two searches, both run to completion
+        bfs = HistoryBFS(ck, b['vx'], [make_init('hash1', H1), make_init('default', None, 5), make_init('hash2', H2, 2)], alphabet_for(True), maxdepth=4, reps=1, emit=emit, extra_judge=extra_judge)
+        bfs.run(deadline=time.time() + 5400)
+        first = dict(states=ck.cov.get('states', 0), transitions=ck.cov.get('transitions', 0), traces=ck.cov.get('traces_validated_against_impl', 0))
+        bfs2 = HistoryBFS(ck, b['vx'], [make_init_populated('hash1-populated', H1), make_init_populated('hash2-populated', H2, 5), make_init_populated('default-populated', None, 2)], alphabet_for(True), maxdepth=3, reps=1, emit=emit, extra_judge=extra_judge)
+        bfs2.run(deadline=time.time() + 3000)
+        ck.cov['states'] = ck.cov.get('states', 0) + first['states']; ck.cov['transitions'] = ck.cov.get('transitions', 0) + first['transitions']
+        ck.cov['traces_validated_against_impl'] = ck.cov.get('traces_validated_against_impl', 0) + first['traces']
+        ck.cov['max_depth'] = 4
+    else:
+        inits = [make_init('hash1', H1), make_init('default', None, 5), make_init_populated('hash1-populated', H1)]
+        bfs = HistoryBFS(ck, b['vx'], inits, alphabet_for(False), maxdepth=3, reps=1, emit=emit, extra_judge=extra_judge)
+        bfs.run(deadline=time.time() + 600)
     ck.cov['distinct_nontrivial'] = ck.cov.get('states', 0)
     ck.cov['rule'] = ('BFS over def_dim/def_var/put_att (overwrite smaller/equal/larger, other type, zero length)/rename_dim/rename_var/rename_att/copy_att/del_att/enddef/redef/close+open with a name alphabet built to collide '
                       '(hash table sizes 1, 2 and default via hints; started from the empty file and from a populated define-mode session with three attributes per object; composed vs decomposed UTF-8 of one NFC string, names whose byte length shrinks or grows under normalisation renamed in data mode; NC_MAX_NAME); after every transition the full inquiry sweep (objects, ids, order, names, types, lengths, values, '
